@@ -48,7 +48,7 @@ pub mod pb {
         clean_end_repeated, large_frame_ge_64k, empty_sink_cap0, failed_encode_partial_bytes,
         pipe_both_blocked_resolved, pipe_reader_cancel, pipe_writer_cancel, err_then_sync_resume,
         buffer_shrinks_between_frames, buffer_grows_between_frames, eintr_before_first_byte,
-        two_faults_same_frame, rewrap_at_boundary, max_len_changed_mid_run,
+        two_faults_same_frame, rewrap_at_boundary, max_len_changed_mid_run, stream_beyond_4gib,
     );
 }
 
